@@ -119,6 +119,42 @@ def getAt (fu : Nat) (k : Bytes) (b : Bk) : Option Bytes :=
   | some it => if it.key = k ∧ it.flags % 2 = 0 then some it.val else none
   | none => none
 
+/-- every nested bucket of `b`, at every depth, is in the cache (`opened`) -/
+def fullyOpened : Nat → Bk → Bool
+  | 0, _ => false
+  | f+1, .mk _ _ t o =>
+    ((flatten t).filterMap (fun i => if i.flags % 2 = 1 then some i.key else none)).all (fun n =>
+      match lookupBk n o with
+      | some c => fullyOpened f c
+      | none => false)
+
+/-- `src.MoveBucket(k, dst)` for opened buckets at the paths `src`, `dst`.  `none` = refused
+    (missing / not a bucket / same bucket / key exists in the destination / destination inside the
+    moved bucket) — or outside the model's domain: the model covers the move of a bucket that is
+    opened together with everything nested in it (its cache entry is handed over to the
+    destination); the move of an unopened bucket (its raw element value is copied) is covered by
+    the API-level correspondence (`apiprog`) only. -/
+def moveAt (fu : Nat) (src : List Bytes) (k : Bytes) (dst : List Bytes) (cur : Bk) : Option Bk :=
+  match bkAt src cur, bkAt dst cur with
+  | some sb, some db =>
+    match seekItem k fu sb.tree with
+    | some it =>
+      if it.key = k ∧ it.flags % 2 = 1 then
+        if src = dst then none else
+        if (match seekItem k fu db.tree with | some dit => dit.key == k | none => false) then none else
+        if isPrefixOf (src ++ [k]) dst then none else
+        match lookupBk k sb.opened with
+        | none => none
+        | some c =>
+          if !fullyOpened fu c then none else
+          (modifyBk (fun b => (modifyAt (leafDel k) (searchPath k fu b.tree) b.tree).map (fun t =>
+              (b.setTree t).setOpened (b.opened.filter (fun p => !(p.1 == k))))) src cur).bind (fun cur1 =>
+            modifyBk (fun b => (modifyAt (leafPutF k it.val 1) (searchPath k fu b.tree) b.tree).map (fun t =>
+              (b.setTree t).setOpened (b.opened.filter (fun p => !(p.1 == k)) ++ [(k, c)]))) dst cur1)
+      else none
+    | none => none
+  | _, _ => none
+
 /-! ### commit -/
 
 /-- `Bucket.rebalance()`: own nodes (in map order `order`), then every opened sub-bucket -/
